@@ -227,7 +227,7 @@ def Hasher.finalOutput (h : Hasher) : Node :=
 
 /-- `Hasher::reset` -/
 def Hasher.reset (h : Hasher) : Hasher :=
-  { h with cs := ChunkState.new h.key 0 h.cs.flags, stack := [] }
+  { h with cs := ChunkState.new h.key 0 h.cs.flags, t0 := 0, stack := [] }
 
 /-- hazmat `set_input_offset`; `none` = one of its two assertions fails -/
 def Hasher.setInputOffset (h : Hasher) (offset : Nat) : Option Hasher :=
